@@ -49,9 +49,31 @@ def family_notations():
         out[f'forall_{v}'] = (s.forall(v), 'forall')
         out[f'sorted_exists_{v}'] = (k.sorted_exists(v), 'sorted_exists')
         out[f'kore_exists_{v}'] = (k.kore_exists(v), 'kore_exists')
+    # synthetic user-style notations (the Metamath and K front ends create notations at run time): definitions with a free
+    # element/set variable of their own, with a binder, with a constrained metavariable, with an unused parameter
+    syn = [
+        ('syn_at_x1', 1, p.App(p.MetaVar(0), p.EVar(1)), '({0} @ x1)'),
+        ('syn_imp_x2', 1, p.Implies(p.EVar(2), p.MetaVar(0)), '(x2 ~> {0})'),
+        ('syn_ex0_pair', 2, p.Exists(0, p.App(p.MetaVar(0), p.MetaVar(1))), '(E0 {0} {1})'),
+        ('syn_mu1', 1, p.Mu(1, p.App(p.SVar(1), p.MetaVar(0))), '(lfp1 {0})'),
+        ('syn_in_X0', 1, p.App(p.SVar(0), p.MetaVar(0)), '(X0 @ {0})'),
+        ('syn_second', 2, p.App(p.Symbol('second'), p.MetaVar(1)), 'second({0}, {1})'),
+        ('syn_nest', 1, p.neg(p.App(p.MetaVar(0), p.EVar(0))), '~({0} @ x0)'),
+    ]
+    for label, arity, d, fmt in syn:
+        out[label] = (_cached_notation(label, arity, d, fmt), 'synthetic')
     for name, n, cell in (('f', 0, False), ('g', 1, False), ('h', 2, False), ('k3', 3, False), ('cell', 2, True), ('c1', 1, True)):
         out[f'nary_{name}_{n}'] = (k.nary_app(p.Symbol(name), n, cell), 'nary_app')
     return out
+
+
+_NOTATION_CACHE = {}
+
+
+def _cached_notation(label, arity, d, fmt):
+    if label not in _NOTATION_CACHE:
+        _NOTATION_CACHE[label] = mod('pattern').Notation(label, arity, d, fmt)
+    return _NOTATION_CACHE[label]
 
 
 def all_notations():
